@@ -51,6 +51,46 @@ impl UnlockableFile for File {
     }
 }
 
+/**
+Open (creating it if necessary) the file at `path` and place an exclusive advisory lock on it.
+
+The lock is held on the file and not on its name. If the name is unlinked or replaced between
+opening and locking the file (e.g. by a concurrent [`crate::DB::destroy_database`]), somebody else
+can create and lock a new file under the same name and there would be two owners. The name is
+therefore re-checked after the lock was obtained.
+*/
+fn open_and_lock_exclusively(path: &Path) -> io::Result<File> {
+    let file = OpenOptions::new()
+        .read(true)
+        .write(true)
+        .create(true)
+        .truncate(true)
+        .open(path)?;
+    file.try_lock_exclusive()?;
+
+    #[cfg(unix)]
+    {
+        use std::os::unix::fs::MetadataExt;
+
+        let locked_file_metadata = file.metadata()?;
+        let is_name_still_bound_to_locked_file = match fs::metadata(path) {
+            Ok(current_metadata) => {
+                current_metadata.ino() == locked_file_metadata.ino()
+                    && current_metadata.dev() == locked_file_metadata.dev()
+            }
+            Err(_) => false,
+        };
+        if !is_name_still_bound_to_locked_file {
+            return Err(io::Error::new(
+                io::ErrorKind::WouldBlock,
+                "The lock file was removed or replaced while it was being locked.",
+            ));
+        }
+    }
+
+    Ok(file)
+}
+
 /// File system implementation that delegates I/O to the operating system.
 pub struct OsFileSystem {}
 
@@ -142,13 +182,7 @@ impl FileSystem for OsFileSystem {
     }
 
     fn lock_file(&self, path: &Path) -> io::Result<FileLock> {
-        let file = OpenOptions::new()
-            .read(true)
-            .write(true)
-            .create(true)
-            .truncate(true)
-            .open(path)?;
-        file.try_lock_exclusive()?;
+        let file = open_and_lock_exclusively(path)?;
 
         Ok(FileLock::new(Box::new(file)))
     }
@@ -304,13 +338,7 @@ impl FileSystem for TmpFileSystem {
     }
 
     fn lock_file(&self, path: &Path) -> io::Result<FileLock> {
-        let file = OpenOptions::new()
-            .read(true)
-            .write(true)
-            .create(true)
-            .truncate(true)
-            .open(self.get_rooted_path(path))?;
-        file.try_lock_exclusive()?;
+        let file = open_and_lock_exclusively(&self.get_rooted_path(path))?;
 
         Ok(FileLock::new(Box::new(file)))
     }
